@@ -36,6 +36,12 @@ NoDifferentRecords(got) == ToSet(got) \subseteq ToSet(orig) /\ Len(got) <= Len(o
 \* (in a fetch block the digests of each batch end with "~cut": dropping whole trailing batches after at least one
 \* complete batch is FetchResponseBlock's documented behaviour)
 WholeBatchPrefix(got) == /\ Len(got) > 0 /\ Len(got) < Len(orig) /\ got = SubSeq(orig, 1, Len(got)) /\ got[Len(got)] = "~cut"
+\* "mustfail" inputs: one push/pop-verified field (block length, record length, CRC) is wrong and everything around
+\* it consistent. "A length that disagrees with the data / an altered checksum is reported as an error": ok is
+\* acceptable only where the code documents a tolerance - the decoder flags the tail as partial (ErrInsufficientData
+\* on a trailing block), or a fetch block drops whole trailing batches after a complete one. Returning the
+\* original records WITHOUT having noticed is not acceptable: the field was not verified.
+Tolerated(got, partial) == (partial /\ NoDifferentRecords(got)) \/ WholeBatchPrefix(got)
 ExactOrFlagged(got, partial) == got = orig \/ (partial /\ NoDifferentRecords(got)) \/ WholeBatchPrefix(got)
 
 DecClauses ==
@@ -44,6 +50,7 @@ DecClauses ==
   \cup When(E.res = "oom" \/ E.alloc > BoundKiB(E.inlen, E.comp) + E.allow, "alloc_proportional")
   \cup When(E.dmg /\ E.res = "ok" /\ ~NoDifferentRecords(E.got), "crc_or_length_damage_is_error")
   \cup When(E.strict /\ E.res = "ok" /\ ~ExactOrFlagged(E.got, E.partial), "crc_or_length_damage_is_error")
+  \cup When(E.mustfail /\ E.res = "ok" /\ ~Tolerated(E.got, E.partial), "crc_or_length_damage_is_error")
   \cup When(E.res \notin {"ok", "err", "panic", "crash", "hang", "oom"}, "unclassified_result")
 
 \* the primitive contract, on the real primitive's outcome
